@@ -309,3 +309,10 @@ func CheckLex(spec *LexSpec, input []byte, steps []LexStep, toks []LexTok, ended
 	}
 	return ""
 }
+
+// Exported forms for the product construction (C10).
+func (m *LexMode) Prepare()                      { m.prepare() }
+func (m *LexMode) Step(s []bool, c rune) []bool  { return m.step(s, c) }
+func (m *LexMode) Hit(s []bool, ri int) bool     { return m.hit(s, ri) }
+func (m *LexMode) NgComplete(s []bool) bool      { return s != nil && m.ngComplete(s) }
+func AnyOf(s []bool) bool                        { return anyOf(s) }
